@@ -40,7 +40,7 @@ type c02sScenario struct {
 	Steps []c02sStep `json:"steps"`
 }
 
-func runC02Stage(c *Ctx) {
+func runC02Stage(c *Ctx, prop string) {
 	n := c.N(400, 8000)
 	for i := 0; i < n; i++ {
 		idx := 4_000_000 + i
@@ -51,17 +51,17 @@ func runC02Stage(c *Ctx) {
 		sc := &c02sScenario{}
 		dir := filepath.Join(c.Work, fmt.Sprintf("c02s-%d", idx))
 		c.Guard(idx, sc, func() {
-			bubble(c.T, func() { c02StageRun(c, idx, rng, sc, dir) })
+			bubble(c.T, func() { c02StageRun(c, prop, idx, rng, sc, dir) })
 		})
 		os.RemoveAll(dir)
 	}
 }
 
-func c02StageRun(c *Ctx, idx int, rng *rand.Rand, sc *c02sScenario, dir string) {
+func c02StageRun(c *Ctx, prop string, idx int, rng *rand.Rand, sc *c02sScenario, dir string) {
 	res := c.Res
 	res.Eval()
 	viol := func(clause, fp, detail string) {
-		res.Violate(Violation{Clause: clause, Fingerprint: "C02/" + fp, Detail: detail, Scenario: sc, Index: idx})
+		res.Violate(Violation{Clause: clause, Fingerprint: prop + "/" + fp, Detail: detail, Scenario: sc, Index: idx})
 	}
 	time.Sleep(time.Duration(rng.Intn(86400)) * time.Second)
 	rs := newRecvSide(dir, rng.Intn(2) == 0)
